@@ -2707,3 +2707,217 @@ mod tests {
         }
     }
 }
+
+/// Verification hooks (cargo feature `verif`): a public wrapper around the private entry points
+/// of the autoalloc process with an injected queue handler. No checking logic.
+#[cfg(feature = "verif")]
+pub mod verif {
+    use super::*;
+    pub use crate::server::autoalloc::queue::{
+        AllocationExternalStatus, AllocationStatusMap, AllocationSubmissionResult, QueueHandler,
+        SubmitMode,
+    };
+    pub use crate::server::autoalloc::state::AllocationWorkdir;
+    use crate::common::rpc::ResponseToken;
+    use std::time::Duration;
+
+    #[derive(Debug, Clone)]
+    pub struct QueueSnapshot {
+        pub id: QueueId,
+        pub active: bool,
+        pub backlog: u32,
+        pub max_workers_per_alloc: u32,
+        pub max_worker_count: Option<u32>,
+        pub allocations: Vec<Allocation>,
+        /// (current delay, submission fails, allocation fails, had a submission attempt)
+        pub limiter: (Duration, u64, u64, bool),
+        pub known_worker_resources: bool,
+    }
+
+    #[derive(Debug, Clone)]
+    pub struct AutoallocSnapshot {
+        pub queues: Vec<QueueSnapshot>,
+        pub allocation_to_queue: Vec<(AllocationId, QueueId)>,
+    }
+
+    pub struct AutoallocLab {
+        state: AutoAllocState,
+        senders: AutoallocSenders,
+    }
+
+    impl AutoallocLab {
+        pub fn new(server: ServerRef, events: EventStreamer, queue_id_initial_value: u32) -> Self {
+            AutoallocLab {
+                state: AutoAllocState::new(queue_id_initial_value),
+                senders: AutoallocSenders { server, events },
+            }
+        }
+
+        /// `create_queue` with an injected handler and limiter parameters.
+        pub fn add_queue(
+            &mut self,
+            params: QueueParameters,
+            handler: Box<dyn QueueHandler>,
+            worker_resources: Option<ResourceDescriptor>,
+            max_allocation_fails: u64,
+        ) -> QueueId {
+            let queue = AllocationQueue::new(
+                QueueInfo::new(params.clone()),
+                params.name.clone(),
+                handler,
+                RateLimiter::new(
+                    SUBMISSION_DELAYS.to_vec(),
+                    MAX_SUBMISSION_FAILS,
+                    max_allocation_fails,
+                ),
+                worker_resources,
+            );
+            let id = self.state.add_queue(queue, None);
+            self.senders.events.on_allocation_queue_created(id, params);
+            id
+        }
+
+        pub async fn worker_connected(
+            &mut self,
+            id: WorkerId,
+            config: tako::worker::WorkerConfiguration,
+            manager_info: ManagerInfo,
+        ) -> bool {
+            handle_message(
+                &mut self.state,
+                &self.senders.events,
+                AutoAllocMessage::WorkerConnected {
+                    id,
+                    config,
+                    manager_info,
+                },
+            )
+            .await
+        }
+
+        pub async fn worker_lost(
+            &mut self,
+            id: WorkerId,
+            manager_info: ManagerInfo,
+            details: LostWorkerDetails,
+        ) -> bool {
+            handle_message(
+                &mut self.state,
+                &self.senders.events,
+                AutoAllocMessage::WorkerLost(id, manager_info, details),
+            )
+            .await
+        }
+
+        pub async fn job_submitted(&mut self, job_id: tako::JobId) -> bool {
+            handle_message(
+                &mut self.state,
+                &self.senders.events,
+                AutoAllocMessage::JobSubmitted(job_id),
+            )
+            .await
+        }
+
+        pub async fn pause_queue(&mut self, id: QueueId) -> Result<(), String> {
+            let (token, rx) = ResponseToken::new();
+            handle_message(
+                &mut self.state,
+                &self.senders.events,
+                AutoAllocMessage::PauseQueue {
+                    id,
+                    response: token,
+                },
+            )
+            .await;
+            rx.await.unwrap().map_err(|e| e.to_string())
+        }
+
+        pub async fn resume_queue(&mut self, id: QueueId) -> Result<(), String> {
+            let (token, rx) = ResponseToken::new();
+            handle_message(
+                &mut self.state,
+                &self.senders.events,
+                AutoAllocMessage::ResumeQueue {
+                    id,
+                    response: token,
+                },
+            )
+            .await;
+            rx.await.unwrap().map_err(|e| e.to_string())
+        }
+
+        pub async fn remove_queue(&mut self, id: QueueId, force: bool) -> Result<(), String> {
+            let (token, rx) = ResponseToken::new();
+            handle_message(
+                &mut self.state,
+                &self.senders.events,
+                AutoAllocMessage::RemoveQueue {
+                    id,
+                    force,
+                    response: token,
+                },
+            )
+            .await;
+            rx.await.unwrap().map_err(|e| e.to_string())
+        }
+
+        pub async fn get_allocations(&mut self, id: QueueId) -> Result<Vec<Allocation>, String> {
+            let (token, rx) = ResponseToken::new();
+            handle_message(
+                &mut self.state,
+                &self.senders.events,
+                AutoAllocMessage::GetQueueAllocations(id, token),
+            )
+            .await;
+            rx.await.unwrap().map_err(|e| e.to_string())
+        }
+
+        pub async fn perform_submits(&mut self) -> Result<(), String> {
+            perform_submits(&mut self.state, &self.senders)
+                .await
+                .map_err(|e| format!("{e:?}"))
+        }
+
+        pub async fn do_periodic_update(&mut self) {
+            do_periodic_update(&self.senders, &mut self.state).await
+        }
+
+        pub fn has_active_queues(&self) -> bool {
+            self.state.has_active_queues()
+        }
+
+        /// Makes `d` of virtual time pass for the rate limiter of the queue.
+        pub fn shift_limiter_clock(&mut self, id: QueueId, d: Duration) {
+            if let Some(queue) = self.state.get_queue_mut(id) {
+                queue.limiter_mut().verif_shift_clock(d);
+            }
+        }
+
+        pub fn snapshot(&self) -> AutoallocSnapshot {
+            let mut queues: Vec<QueueSnapshot> = self
+                .state
+                .queues()
+                .map(|(id, queue)| {
+                    let mut allocations: Vec<Allocation> =
+                        queue.all_allocations().cloned().collect();
+                    allocations.sort_by(|a, b| a.id.cmp(&b.id));
+                    QueueSnapshot {
+                        id,
+                        active: queue.state().is_active(),
+                        backlog: queue.info().backlog(),
+                        max_workers_per_alloc: queue.info().max_workers_per_alloc(),
+                        max_worker_count: queue.info().max_worker_count(),
+                        allocations,
+                        limiter: queue.limiter().verif_dump(),
+                        known_worker_resources: queue.get_worker_resources().is_some(),
+                    }
+                })
+                .collect();
+            queues.sort_by_key(|q| q.id);
+            AutoallocSnapshot {
+                queues,
+                allocation_to_queue: self.state.verif_allocation_to_queue(),
+            }
+        }
+    }
+}
